@@ -284,7 +284,7 @@ Section WithLgk.
       + intros e He. apply nonzero_In in He. tauto.
       + exact Hnd'.
       + intros e x _ Hx. rewrite nonzero_zeros in Hx. contradiction.
-      + rewrite nonzero_zeros, Hlen'. cbn [lenN length]. rewrite N.pow_add_r. change (2 ^ 1) with 2. lia.
+      + rewrite nonzero_zeros, Hlen'. change (lenN []) with 0. rewrite N.pow_add_r. change (2 ^ 1) with 2. lia.
       + unfold aux_regrow. unfold rehash_step in Hfold. unfold find in Hfold.
         unfold aux_find_in, aiskey, ahome, akey in *. rewrite Hfold. eexists. split; [reflexivity|].
         rewrite nonzero_zeros, app_nil_r in Hperm.
@@ -293,7 +293,7 @@ Section WithLgk.
           -- apply (ai_lgk _ _ Hinv).
           -- lia.
           -- exact Htn.
-          -- rewrite (Permutation_length Hperm) at 1. fold (lenN (nonzero ent')). unfold lenN at 1. exact (eq_sym Hlen').
+          -- rewrite <- Hlen'. unfold lenN. f_equal. symmetry. apply Permutation_length. exact Hperm.
           -- rewrite N.pow_add_r. change (2 ^ 1) with 2. lia.
           -- eapply Permutation_NoDup; [|exact Hnd']. apply Permutation_map. now apply Permutation_sym.
           -- eapply Permutation_Forall; [|exact Hwf']. now apply Permutation_sym.
